@@ -3,6 +3,8 @@
 package oci
 
 import (
+	"archive/tar"
+	"bytes"
 	"context"
 	"os"
 
@@ -67,6 +69,17 @@ func VerifC08Reopen() {
 			m.stored[i] = true
 		}
 	}
+	// tar=2: the layout is archived now and the files present after the history are appended
+	// later (tar -r): the archive then holds index.json (and every blob) twice.
+	var tarBuf bytes.Buffer
+	tw := tar.NewWriter(&tarBuf)
+	if verifrt.Param("tar", 0) == 2 {
+		if !s.AutoSaveIndex {
+			verifrt.Assert(s.SaveIndex() == nil, "C08.saveindex-succeeds")
+		}
+		tarTree(tw, root, "")
+		must(tw.Flush())
+	}
 	applyHistory(ctx, s, nodes, m, k, verifrt.Param("gc", 0) != 0, verifrt.Param("delete", 1) != 0)
 	if !s.AutoSaveIndex {
 		verifrt.Assert(s.SaveIndex() == nil, "C08.saveindex-succeeds")
@@ -103,5 +116,48 @@ func VerifC08Reopen() {
 			assertSameObservation(before, observe(ctx, ro, nodes), "C08.same-state-fs")
 		}
 	}
+	// reopen read-only from a tar archive of the directory
+	if verifrt.Param("tar", 0) != 0 {
+		tarTree(tw, root, "")
+		must(tw.Close())
+		arch := verifrt.TempDir() + "/layout.tar"
+		must(os.WriteFile(arch, tarBuf.Bytes(), 0o644))
+		ro, err := NewFromTar(ctx, arch)
+		verifrt.Assert(err == nil, "C08.reopen-tar.opens")
+		if err == nil {
+			ot := observe(ctx, ro, nodes)
+			assertSameObservation(before, ot, "C08.same-state-tar")
+			for i := range nodes {
+				verifrt.Assert(strsEqual(ot.preds[i], truthPredecessors(nodes, m, i)), "C07.oci.predecessors-exact-after-tar-reopen")
+			}
+		}
+	}
 	verifrt.Reach("C08.reopen.end")
+}
+
+// tarTree writes the files and directories below dir into tw, names relative to the layout root.
+func tarTree(tw *tar.Writer, dir, rel string) {
+	ents, err := os.ReadDir(dir)
+	if err != nil {
+		panic(err)
+	}
+	for _, e := range ents {
+		name := e.Name()
+		if rel != "" {
+			name = rel + "/" + e.Name()
+		}
+		if e.IsDir() {
+			must(tw.WriteHeader(&tar.Header{Typeflag: tar.TypeDir, Name: name + "/", Mode: 0o755}))
+			tarTree(tw, dir+"/"+e.Name(), name)
+			continue
+		}
+		b, err := os.ReadFile(dir + "/" + e.Name())
+		if err != nil {
+			panic(err)
+		}
+		must(tw.WriteHeader(&tar.Header{Typeflag: tar.TypeReg, Name: name, Mode: 0o644, Size: int64(len(b))}))
+		if _, err := tw.Write(b); err != nil {
+			panic(err)
+		}
+	}
 }
